@@ -163,8 +163,19 @@ let () =
             | "buffer" | "args" ->
               Some (SBuf (mk_buffer (if arg = "n" then None else Some (bytes_of_hex arg)) (kind = "args")))
             | _ -> (match desc with Some d -> build rnd64 d | None -> None) in
+          (* closed form is compared where b-a does not overflow and the exact step (b-a)/n is zero or a
+             normal binary64 number (a subnormal step loses relative precision, i*step then carries up to
+             i/2 units of 2^-1074) *)
           let cf = match desc, src with
-            | Some (PLin (len, Fin a, Fin b)), Some _ -> Some (a, b, n_of_int (int_of_n len - 1))
+            | Some (PLin (len, Fin a, Fin b)), Some _ ->
+              let steps = n_of_int (int_of_n len - 1) in
+              let st = qminus (lin_closed a b steps (n_of_int 1)) a in
+              let ast = if (match st.qnum with Zneg _ -> true | _ -> false) then qopp st else st in
+              let normal = (match st.qnum with Z0 -> true | _ ->
+                (match c_dblmin with Fin m -> qcompare ast m <> Lt | _ -> false)) in
+              (match fsub rnd64 (Fin b) (Fin a) with
+               | Fin _ when normal -> Some (a, b, steps)
+               | _ -> None)
             | _ -> None in
           let ops = parse_ops ops in
           let strkind = (kind = "string") and bufkind = (kind = "buffer" || kind = "args") in
